@@ -11,4 +11,9 @@ META = {
   text="The consistency of edges/deps/revDeps is a Lean invariant proved for every reachable state (any history of AddNode/AddStruct/AddEnum/AddPrimitive/AddEdge/RemoveEdge/RemoveNode, cyclic graphs and the eviction cascade included); GetEdges/Children/Parents are proved equal to the plain edge-set answers under it, so outgoing<=>incoming and child<=>parent duality are theorems. The model is tied to the Go graph by dumping every query after every operation of thousands of generated histories; the plain set-of-nodes/edges specification (incl. the eviction fixed point) is evaluated on the implementation's own dumps.",
   note="Trusted: Lean kernel, standard axioms, hand-written model as sampled by the correspondence, harness. Not proved in Lean: cascade = least fixed point (spec-checked on every run). Holds after fix commits 095d206, fa8c7b3, 824927d.",
  ),
+ "C16": dict(
+  technique="Lean 4 proof (round-trip and soundness of a regex-equivalent matcher, holder order/description/error theorems by induction over the comment block) + pinned regex text + differential correspondence with annotations.NewAnnotationHolder",
+  text="parse(render a) = a is a Lean theorem for every written annotation satisfying an explicit decidable well-formedness predicate (any name, any value over the class, any JSON text, any description); soundness (nothing invented), source order, the description rule and 'malformed JSON5 is an error' are theorems over every comment block. The matcher is tied to the code by the regenerated regex text (a changed regex breaks a proof obligation) and by tens of thousands of generated comment blocks pushed through go/parser and the real holder, with intent-based round-trip checks on the implementation's own answers.",
+  note="Trusted: Lean kernel, standard axioms, hand-written matcher vs RE2 semantics (sampled), json5 library as a parameter. Partial: round trip needs the unambiguity hypothesis; its failure is the open finding C16-F1.",
+ ),
 }
